@@ -4,7 +4,7 @@ import sys, os, importlib
 HERE = os.path.dirname(os.path.abspath(__file__))
 sys.path.insert(0, HERE); sys.path.insert(0, os.path.join(os.path.dirname(HERE), 'contracts'))
 tq = tt = 0
-for p in ['C01','C02','C03','C04','C05','C06','C07','C08','C09','C10','C11','C12','C13','C14','C15','C16','C18']:
+for p in ['C01','C02','C03','C04','C05','C06','C07','C08','C09','C10','C11','C12','C13','C14','C15','C16','C17','C18','C19']:
     m = importlib.import_module(p)
     obs = m.OBLIGATIONS
     q = [o for o in obs if o.get('tier', 'quick') == 'quick']
